@@ -428,8 +428,22 @@ def prove_item(kind, name, tier, seed, known=()):
             alts.append(("no-elem", query_text(ctx, ob, drop=("elem",))))
         r = smt.solve(text, timeout, order=order, alts=alts)
         return ob, r
+    # declared-partial items: obligations known to be open on the baseline are not retried in the quick tier
+    skip = set()
+    if kind == "contract" and tier == "quick":
+        ci = spec.CONTRACTS.get(name)
+        if ci is not None and ci.opts.get("partial"):
+            import re as _re
+            pb = os.path.join(loader.ROOT, "baseline", "partial.json")
+            base_ok = set(json.load(open(pb)).get(name, [])) if os.path.exists(pb) else None
+            if base_ok:
+                skip = {ob.label for ob in ctx.obligations if _re.sub(r":\d+:", ":", ob.label) not in base_ok}
+    todo = [ob for ob in ctx.obligations if ob.label not in skip]
     with ThreadPoolExecutor(max_workers=int(os.environ.get("PYVC_WORKERS", "4"))) as ex:
-        allres = list(ex.map(work, list(ctx.obligations) + canaries))
+        allres = list(ex.map(work, todo + canaries))
+    for ob in ctx.obligations:
+        if ob.label in skip:
+            allres.append((ob, {"result": "open-on-baseline", "solver": None, "s": 0.0, "tried": []}))
     results = [(ob, r) for ob, r in allres if ob.kind != "canary"]
     res.all_labels = [ob.label for ob in ctx.obligations]
     res.n_obligations = len(ctx.obligations) + len(ctx.trivial)
@@ -441,10 +455,12 @@ def prove_item(kind, name, tier, seed, known=()):
         h = func_hash(repo, name)
         res.info["source_hash"] = h
         res.source_changed = name in base and base[name] != h
+    res.times = {}
     for ob, r in results:
         ob.status = r["result"]
         ob.solver = r["solver"]
         ob.seconds = r["s"]
+        res.times[ob.label] = r["s"]
         ob.solver_output = r["tried"]
         for t in r["tried"]:
             a = res.by_backend.setdefault(t["solver"], [0, 0.0])
